@@ -16,6 +16,8 @@ import (
 	"strconv"
 	"strings"
 	"sync"
+	"sync/atomic"
+	"syscall"
 	"time"
 
 	"github.com/IrineSistiana/mosproxy/verif/internal/ev"
@@ -366,7 +368,26 @@ func supervise() int {
 	cmd.Stdout = io.MultiWriter(os.Stdout, outTail)
 	cmd.Stderr = io.MultiWriter(os.Stderr, errTail)
 	start := time.Now()
+	// generous wall-clock watchdog around the whole run (inconclusive when it fires, never a verdict)
+	limit := 40 * time.Minute
+	if len(os.Args) > 2 && os.Args[2] == "thorough" {
+		limit = 5 * time.Hour
+	}
+	var fired atomic.Bool
+	wd := time.AfterFunc(limit, func() {
+		fired.Store(true)
+		if cmd.Process != nil {
+			cmd.Process.Signal(syscall.SIGQUIT)
+			time.Sleep(3 * time.Second)
+			cmd.Process.Kill()
+		}
+	})
 	runErr := cmd.Run()
+	wd.Stop()
+	if fired.Load() {
+		fmt.Printf("INCONCLUSIVE property=%s reason=the check did not finish within %v (watchdog); goroutine dump in the output above\n", id, limit)
+		return 3
+	}
 	code := 0
 	if runErr != nil {
 		code = 3
